@@ -557,6 +557,7 @@ type SpecFunc struct {
 	Body   *Clause   // may be nil (uninterpreted)
 	Axioms []*Clause // axioms over it (instantiated for the actual arguments of each use)
 	Reads  []string  // heap families an uninterpreted spec function depends on
+	Ghost  bool      // ghost state attached to an object (one heap family G_<name>); Body = value at allocation
 	Pkg    string
 	Line   int
 }
@@ -593,7 +594,7 @@ type ContractFile struct {
 var clauseKeywords = map[string]bool{
 	"func": true, "requires": true, "ensures": true, "modifies": true, "pure": true, "inline": true, "opaque": true,
 	"panics": true, "floats": true, "loop": true, "invariant": true, "decreases": true, "at": true, "assert": true,
-	"spec": true, "lemma": true, "extern": true, "props": true, "let": true, "trusted": true, "axiom": true, "nobody": true, "sweep": true, "reads": true, "noframe": true,
+	"spec": true, "ghost": true, "lemma": true, "extern": true, "props": true, "let": true, "trusted": true, "axiom": true, "nobody": true, "sweep": true, "reads": true, "noframe": true,
 }
 
 type rawClause struct {
@@ -756,16 +757,16 @@ func parseContractFile(path, pkg string) (*ContractFile, error) {
 			} else if lem != nil {
 				lem.Props = append(lem.Props, ps...)
 			}
-		case "spec":
+		case "spec", "ghost":
 			reset()
-			// spec func name(params) T [= expr]
+			// spec func name(params) T [= expr]     |     ghost name(x T) R [= default]
 			t := strings.TrimSpace(strings.TrimPrefix(rc.text, "func"))
 			lp := strings.Index(t, "(")
 			rp := matchParen(t, lp)
 			if lp < 0 || rp < 0 {
 				return nil, errf("bad spec func")
 			}
-			sf = &SpecFunc{Name: strings.TrimSpace(t[:lp]), Params: parseParams(t[lp+1 : rp]), Pkg: pkg, Line: rc.line}
+			sf = &SpecFunc{Name: strings.TrimSpace(t[:lp]), Params: parseParams(t[lp+1 : rp]), Pkg: pkg, Line: rc.line, Ghost: rc.kw == "ghost"}
 			rest := strings.TrimSpace(t[rp+1:])
 			if j := strings.Index(rest, "="); j >= 0 {
 				sf.Ret = strings.TrimSpace(rest[:j])
